@@ -115,7 +115,7 @@ func runC04(r *ev.Run) {
 		level, depth = 1, 4
 		r.SetDeadline(40 * 60 * 1e9)
 	} else {
-		r.SetDeadline(150 * 1e9)
+		r.SetDeadline(240 * 1e9)
 	}
 	r.Set("rule", "state = history of committed transactions replayed on a fresh real server, deduplicated on rows + reference index; transition = one transaction of the S-ref alphabet; non-trivial = committed transaction in which the engine deleted a row (garbage collection) or rewrote a column (weak pruning) beyond what the operations asked for")
 	r.Assume("self references and reference cycles among non-root rows count as references (as the property is written)")
@@ -141,7 +141,7 @@ func runC04(r *ev.Run) {
 			tp := templ(e.Txn.Name)
 			historyIndependence := func(e *dbx.Edge) {
 				// (f) history independence: a fresh database loaded with exactly the pre rows answers alike
-				if len(e.Hist) > 0 {
+				if len(e.Hist) > 0 && (r.Tier == "thorough" || len(e.Hist) <= 2) { // quick: from the states of depth <= 2 (the deepest level is the bulk of the edges)
 					s2 := sys.New(dbs)
 					lres, lerr := s2.TransactRef(loadTxn(e.Pre))
 					ok := lerr == nil
